@@ -1,4 +1,5 @@
 /- Driver for C26: the Core model's line protocol (MvModel/CoreDrv.lean) with `put` / `update`
-   executed under the repaired derived-data id policy (`IdPolicy.frameId`, MvModel/Derived.lean). -/
+   executed under the derived-data id policy the source has (`codePolicy`, read off put_internal by
+   tools/gen/C26.py: `IdPolicy.frameId` once /verif/fixes/C26.diff is in, `walSeq` before). -/
 import MvModel.Derived
-def main : IO Unit := Mv.runDriver Mv.Core.Mem.create (Mv.Core.drvStepG .frameId)
+def main : IO Unit := Mv.runDriver Mv.Core.Mem.create (Mv.Core.drvStepG Mv.Core.codePolicy)
